@@ -18,6 +18,7 @@ import (
 	"github.com/wrgl/wrgl/pkg/doctor"
 	"github.com/wrgl/wrgl/pkg/encoding/packfile"
 	"github.com/wrgl/wrgl/pkg/objects"
+	"github.com/wrgl/wrgl/pkg/prune"
 )
 
 type C03Plan struct {
@@ -32,6 +33,8 @@ type C03Plan struct {
 	Stale    bool      `json:"stale"`  // ingest: damaged table index / profile left under the table's key are overwritten by a re-ingest
 	KeyCols  []int     `json:"key_cols,omitempty"` // composite key: column indices in declared key order (overrides the single id key)
 	Huge     bool      `json:"huge,omitempty"`     // ingest only: N may exceed 1024 blocks
+	Rekey    string    `json:"rekey,omitempty"`    // ingest: the same rows were committed before under another key with the same row order: "widen" (id -> id,c1), "keyless" (id -> no key), "narrow" (id,c1 -> id)
+	Retry    bool      `json:"retry,omitempty"`    // receive: a first receipt dies when the table object is written, prune runs, the transfer is repeated
 	DupEdge  bool      `json:"dup_edge,omitempty"` // ingest: the input repeats the lines whose keys end / start a block (positions 254, 255, 509, 510 in key order)
 }
 
@@ -51,6 +54,10 @@ func init() {
 			p.DupAt = r.Intn(800)
 			p.Stale = r.Chance(0.25)
 			p.DupEdge = r.Chance(0.3)
+			if r.Chance(0.2) {
+				p.Rekey = Pick(r, []string{"widen", "keyless", "narrow"})
+			}
+			p.Retry = r.Chance(0.3)
 			if r.Chance(0.4) {
 				p.NCols = max(p.NCols, r.Range(2, 5))
 				p.KeyCols = r.Perm(p.NCols)[:r.Range(2, min(4, p.NCols))]
@@ -144,6 +151,28 @@ func execC03(t *testing.T, raw json.RawMessage, res *Result) {
 	checkStore := st
 	switch p.Producer {
 	case "ingest":
+		if p.Rekey != "" && len(p.KeyCols) == 0 && !p.Keyless && !p.Huge && p.NCols >= 2 && len(rows) > 0 {
+			// the same rows, in the same order, under another key, committed first: every block of the
+			// table under test is then in the store already, with the block indices of the other key
+			var pk0 []string
+			switch p.Rekey {
+			case "widen":
+				pk0, pk = []string{cols[0]}, []string{cols[0], cols[1]}
+			case "narrow":
+				pk0, pk = []string{cols[0], cols[1]}, []string{cols[0]}
+			case "keyless":
+				pk0, pk = []string{cols[0]}, nil
+			default:
+				res.Invalid("rekey")
+				return
+			}
+			if _, err := ingestPlain(t, st, cols, pk0, rows); err != nil {
+				res.Invalid("first ingest: %v", err)
+				return
+			}
+			st.TakeMonErrs()
+			res.probe("same_rows_under_another_key_first", 1)
+		}
 		run := RunIngest(t, st, CSVText(cols, input, ','), pk, p.Cfg)
 		if bubbleProblems(res, run.Out, "ingest") {
 			return
@@ -232,6 +261,48 @@ func execC03(t *testing.T, raw json.RawMessage, res *Result) {
 		}
 		dst := NewStore("dst", w)
 		dst.Monitor = MonitorC06
+		if p.Retry {
+			// first attempt: the write of the table object fails; then prune (an unreachable commit makes
+			// it do its work); then the transfer is repeated from scratch
+			s1, err := apiutils.NewObjectSender(src, []*objects.Commit{c}, map[string]struct{}{string(s0): {}}, nil, 0)
+			if err != nil {
+				res.Invalid("sender: %v", err)
+				return
+			}
+			var b1 bytes.Buffer
+			if _, _, err := s1.WriteObjects(&b1, nil); err != nil {
+				res.Invalid("write: %v", err)
+				return
+			}
+			dst.Faults = []*Fault{{Op: "set", Prefix: "tbl/", Nth: 1}}
+			r1 := apiutils.NewObjectReceiver(dst, [][]byte{c.Sum}, logr.Discard())
+			if pr, err := packfile.NewPackfileReader(io.NopCloser(bytes.NewReader(b1.Bytes()))); err == nil {
+				_, err = r1.Receive(pr, nil)
+				if err == nil && len(rows) > 0 {
+					res.Violate("receive-error", "the write of the table object failed but Receive reported success")
+					return
+				}
+			}
+			dst.Faults = nil
+			stray := &objects.Commit{Table: meowSum([]byte("gone")), AuthorName: "x", AuthorEmail: "x", Message: "stray", Time: bubbleEpoch}
+			var sb bytes.Buffer
+			stray.WriteTo(&sb)
+			dst.RawSet("com/"+string(meowSum(sb.Bytes())), sb.Bytes())
+			var perr error
+			bo := Bubble(t, 0, func(mainDone *bool) {
+				perr = prune.Prune(dst, NewMemRef(), nil)
+				*mainDone = true
+			})
+			if bubbleProblems(res, bo, "prune between the attempts") {
+				return
+			}
+			if perr != nil {
+				res.Violate("prune-error", "prune between the two receipts failed: %v", perr)
+				return
+			}
+			dst.TakeMonErrs()
+			res.probe("receipt_interrupted_pruned_repeated", 1)
+		}
 		recv := apiutils.NewObjectReceiver(dst, [][]byte{c.Sum}, logr.Discard())
 		for i := 0; i < 100000; i++ {
 			var buf bytes.Buffer
